@@ -32,6 +32,15 @@ CLAIMED["C17"] = dict(
          "assumed contracts of LowestCommonAncestor.__call__ and .level; ghost field g_data (the array the table was built from).",
 )
 
+CLAIMED["C20"] = dict(
+    text="Unbounded proof of the union-find core from the real AST: DisjointSet.__init__, find (recursive, with path compression; termination measure on ranks), "
+         "unite (merges exactly the two classes, reports whether they differed, decrements the group counter accordingly) and __len__, against a ghost "
+         "representative map with a representation invariant. Triple decomposition, tree reconstruction, all-trees, supertree, to_list and binary() "
+         "are covered by a bounded stand-in against an explicit enumeration oracle (<= 5 leaves, union histories <= 3 on 5 elements) - labelled bounded.",
+    note="Trusted: pyvc encoding; z3/cvc5; ghost field g_rep and the ghost relabelling statements inserted before the three parent-link assignments of unite; "
+         "elements are in range (precondition). Bounded parts are not counted as proved.",
+)
+
 NOT_APPLICABLE = {
     "C14": "float layout geometry and a two-run (orientation) relation over 360 lines of dict-state code: no contract within reach decides it (DESIGN.md section 5)",
     "C09": "metamorphic / cross-process relations between runs; a functional contract speaks about one call (DESIGN.md section 5)",
